@@ -28,6 +28,38 @@ class _Discard(Exception):
     pass
 
 
+class NativeTimeout(BaseException):
+    """The real code did not come back within the wall-clock limit (e.g. a changed loop that never yields)."""
+
+
+class wall_clock_limit:
+    """Native readings run the real code: a change that makes it spin must not hang the check."""
+
+    def __init__(self, seconds):
+        self.seconds = seconds
+
+    def __enter__(self):
+        import signal
+        import threading
+        self.active = threading.current_thread() is threading.main_thread()
+        if self.active:
+            def onalarm(signum, frame):
+                raise NativeTimeout(f"no result after {self.seconds} s of wall-clock time")
+            self.old = signal.signal(signal.SIGALRM, onalarm)
+            signal.setitimer(signal.ITIMER_REAL, self.seconds)
+        return self
+
+    def __exit__(self, *a):
+        import signal
+        if self.active:
+            signal.setitimer(signal.ITIMER_REAL, 0)
+            signal.signal(signal.SIGALRM, self.old)
+        return False
+
+
+NATIVE_LIMIT_S = float(os.environ.get("PYVC_NATIVE_LIMIT_S", "60"))
+
+
 class RandomHarness(NativeHarness):
     """Inputs are drawn at random inside the declared ranges; violated assumptions discard the sample."""
 
@@ -147,7 +179,10 @@ def conformance(oset_name, seed, tries):
     for _ in range(tries):
         hn = RandomHarness(rng, oset_name)
         try:
-            o.fn(hn)
+            with wall_clock_limit(NATIVE_LIMIT_S):
+                o.fn(hn)
+        except NativeTimeout as e:
+            return {"samples": samples, "compared": compared, "disagreements": dis, "skipped": f"native run did not return: {e}"}
         except _Discard:
             continue
         except Exception as e:  # noqa: BLE001
@@ -225,7 +260,11 @@ def run_native(oset_name, inputs):
     o = find_oset(oset_name)
     h = NativeHarness(inputs, oset_name)
     try:
-        o.fn(h)
+        with wall_clock_limit(NATIVE_LIMIT_S):
+            o.fn(h)
+    except NativeTimeout as e:
+        return {"reproduced": True, "failed": ["the real code returns (native run of the proof script)"], "checked": len(h.checked),
+                "note": f"the real code under this proof script did not return: {e}"}
     except ReplayMismatch as e:
         return {"reproduced": False, "note": str(e)}
     except Exception as e:  # noqa: BLE001
@@ -244,7 +283,11 @@ def search_native(oset_name, seed, tries=4000):
     for _ in range(tries):
         h = RandomHarness(rng, oset_name)
         try:
-            o.fn(h)
+            with wall_clock_limit(NATIVE_LIMIT_S):
+                o.fn(h)
+        except NativeTimeout as e:
+            return {"reproduced": True, "failed": ["the real code returns (native run of the proof script)"], "inputs": _jsonable(h.inputs),
+                    "tries": ran, "evaluated": evaluated, "note": f"the real code did not return: {e}"}
         except _Discard:
             continue
         except Exception as e:  # noqa: BLE001
